@@ -198,6 +198,7 @@ fn check(report: &Report, files: &BTreeMap<String, String>, c: &Combo, origin: &
         if o.nontrivial { Some(&key) } else { None },
         &[origin, "accepted", &format!("config:{}", c.name()), if o.n_ops == 0 { "no-operations" } else if o.n_docs < o.n_ops { "documents-shared-by-operations" } else { "one-document-per-operation" }],
     );
+    report.sample(&format!("{}/{}", origin, c.name()), 1, || json!({"config": c.name(), "operations": o.n_ops, "documents": o.n_docs, "files": fb}));
     report.label_n("operations", o.n_ops as u64);
     report.label_n("documents", o.n_docs as u64);
     for f in o.fails {
